@@ -338,8 +338,63 @@ func Hash(s string) string {
 	return hex.EncodeToString(h[:])[:16]
 }
 
+type replayFile struct {
+	Property  string    `json:"property"`
+	Tier      string    `json:"tier"`
+	Violation Violation `json:"violation"`
+}
+
+func loadReplay(p string) *replayFile {
+	b, err := os.ReadFile(p)
+	if err != nil {
+		return nil
+	}
+	var rf replayFile
+	if json.Unmarshal(b, &rf) != nil || rf.Property == "" {
+		return nil
+	}
+	return &rf
+}
+
+// ReplayTier returns the tier recorded in a replay file ("" if unreadable).
+func ReplayTier(p string) string {
+	if rf := loadReplay(p); rf != nil {
+		return rf.Tier
+	}
+	return ""
+}
+
+// finishReplay: verdict of a replay run.
+func (r *Run) finishReplay(rf *replayFile) {
+	for _, v := range r.viol {
+		if v.Clause == rf.Violation.Clause && v.Key == rf.Violation.Key {
+			fmt.Printf("REPRODUCED clause=%s what=%s\n", v.Clause, strconv.Quote(v.What))
+			for _, c := range v.Repro {
+				fmt.Println("  repro:", c)
+			}
+			fmt.Printf("VIOLATION property=%s replay=%s\n", r.ID, r.Replay)
+			os.Exit(1)
+		}
+	}
+	fmt.Printf("NOT-REPRODUCED property=%s clause=%s key=%s (the recorded violation does not occur on the current tree)\n", r.ID, rf.Violation.Clause, strconv.Quote(rf.Violation.Key))
+	if len(r.harness) > 0 {
+		for _, h := range r.harness {
+			fmt.Println("HARNESS-ERROR:", h)
+		}
+		os.Exit(2)
+	}
+	os.Exit(0)
+}
+
 // Finish writes evidence, replay files, prints the verdict lines and exits.
 func (r *Run) Finish() {
+	if r.Replay != "" && r.Replay != "/dev/null" {
+		if rf := loadReplay(r.Replay); rf != nil {
+			r.finishReplay(rf)
+		}
+		fmt.Println("cannot read replay file", r.Replay)
+		os.Exit(2)
+	}
 	known := r.loadFindings()
 	type vk struct{ c, k string }
 	seen := map[vk]bool{}
